@@ -1,3 +1,5 @@
+//go:build !verifsched
+
 package props
 
 import (
@@ -37,7 +39,7 @@ func robustRun(c *hx.Ctx, prop, entry, class string, input []byte, f func()) {
 		if pn.Exit {
 			what = "process exit at " + pn.Site // the log message carries variable text
 		}
-		c.Violation(fmt.Sprintf("%s %s: %s", prop, entry, what), map[string]any{"message": fmt.Sprint(pn.Val),"entry": entry, "input_class": class, "input": hx8(input), "stack": pn.Stack})
+		c.Violation(fmt.Sprintf("%s %s: %s", prop, entry, what), map[string]any{"message": fmt.Sprint(pn.Val), "entry": entry, "input_class": class, "input": hx8(input), "stack": pn.Stack})
 		return
 	}
 	limit := uint64(64<<20) + 64*uint64(len(input))
